@@ -341,11 +341,87 @@ def rule_elimination(ctx):
         ctx.check(R, "remove_syntactic_sugar/functions/%s-rejected" % v, ok, "a function containing a %s that is neither a tuple assignment nor an anonymous component call (e.g. `1 = x;`) reaches the lifting, which panics; function kept under %s" % (v, cs), site(SSR, ins[0]))
 
 
+def eval_contains(ctx, R):
+    """the containment traversal decided by evaluation: `contains_expr` of both node types is run on one instance of
+    every variant whose children are numbered leaves, with a matcher that accepts (a) exactly one leaf, for each leaf in
+    turn, (b) every leaf, (c) no leaf, (d) the node itself - and must return true and call back with the meta of
+    exactly the accepted nodes (all of them: a result that short-circuits skips the later reports)."""
+    import passeval
+    from finfun import Unsupported
+    from passeval import Leaves, O
+
+    try:
+        w = passeval.PassWorld([AST, "program_structure/src/abstract_syntax_tree/expression_impl.rs", "program_structure/src/abstract_syntax_tree/statement_impl.rs", SST], SST)
+    except Exception:
+        return False
+    n = 0
+    bad = {}
+    for en in ("Expression", "Statement"):
+        d = a10.enum_def(AST, en)
+        if not d or (en, "contains_expr") not in w.methods:
+            return False
+        fn = w.methods[(en, "contains_expr")][0]
+        for vname, vdef in d.items():
+            for with_opt in (True, False):
+                lv = Leaves()
+                node, below = passeval.build_node(en, vname, vdef, lv, with_opt)
+                if not below and not with_opt:
+                    continue
+                metas = [m for _t, m in below]
+                scen = [("only:" + t, {id(m)}) for t, m in below] + [("all", {id(m) for m in metas}), ("none", set())]
+                if en == "Expression" and with_opt:
+                    scen.append(("self", "self"))
+                for tag, accept in scen:
+                    called = []
+
+                    def matcher(x, accept=accept, node=node):
+                        if accept == "self":
+                            return x is node or x == node
+                        return isinstance(x, tuple) and x[0] == "S" and x[1] == "Number" and id(x[2][0]) in accept
+
+                    def callback(m, called=called):
+                        called.append(m)
+                        return ("T", ())
+
+                    try:
+                        res = w.call_fn(fn, [node, ("PY", matcher), ("PY", callback)])
+                    except Unsupported as u:
+                        ctx.note("contains_expr is outside the evaluator's subset (%s): shape obligations apply" % u)
+                        return False
+                    except passeval.Panic as p_:
+                        bad.setdefault("%s::contains_expr/%s/no-panic" % (en, vname), str(p_))
+                        continue
+                    n += 1
+                    if accept == "self":
+                        ok = res is True and len(called) == 1
+                        key = "%s::contains_expr/matcher-on-self" % en
+                    else:
+                        want = [m for m in metas if id(m) in accept]
+                        ok = res is (len(want) > 0) and sorted(map(id, called)) == sorted(map(id, want))
+                        key = "%s::contains_expr/%s/every-occurrence-found" % (en, vname)
+                    if not ok:
+                        bad.setdefault(key, "matcher accepts %s: returns %s and reports %d node(s), expected %s and %d" % (tag, res, len(called), accept == "self" or len([m for m in metas if accept != "self" and id(m) in accept]) > 0, 1 if accept == "self" else len([m for m in metas if id(m) in accept])))
+    ctx.floor(R, "traversal worlds evaluated", n, 100)
+    for en in ("Expression", "Statement"):
+        d = a10.enum_def(AST, en)
+        for vname, vdef in d.items():
+            if a10.node_fields(vdef):
+                key = "%s::contains_expr/%s/every-occurrence-found" % (en, vname)
+                ctx.check(R, key, key not in bad and ("%s::contains_expr/%s/no-panic" % (en, vname)) not in bad, bad.get(key) or bad.get("%s::contains_expr/%s/no-panic" % (en, vname)) or "each accepted child is found and reported, one or all of them", SST)
+    key = "Expression::contains_expr/matcher-on-self"
+    ctx.check(R, key, key not in bad, bad.get(key, "the matcher is applied to the node itself"), SST)
+    return True
+
+
 def rule_contains(ctx):
     R = "C18.3"
     ctx.rule(R, "the containment traversal used for rejection visits every child of every statement and expression kind, and the matcher is applied to the node itself")
     qs = {q: f for q, f in fns_in_file(SST) if f["name"] == "contains_expr"}
     n = 0
+    decided = eval_contains(ctx, R)
+    if decided:
+        qs = {}
+        n = 30
     for q, f in qs.items():
         if q.endswith("for Expression"):
             n += a10.check(ctx, R, SST, "contains_expr", q, AST, "Expression", {"contains_expr"}, scrutinee="self")
